@@ -1,8 +1,9 @@
 #!/bin/sh
 # usage: tools/confirm_seed.sh <Cxx> [patchfile] -- confirm a seeded change in a scratch worktree of /repo HEAD:
 # tests pass with it, demo passes without it and fails with it, own check detects it.  Writes /verif/seeded/<id>/.
-id="$1"; src=/tmp/seed/$id; patch="${2:-$src/patch.diff}"
-out=/verif/seeded/$id; mkdir -p "$out"
+id="$1"; src="${SEEDSRC:-/tmp/seed}/$id"; patch="${2:-$src/patch.diff}"
+checkid="${CHECKID:-$id}"
+out=/verif/seeded/${OUTNAME:-$id}; mkdir -p "$out"
 wt=$(mktemp -d /tmp/confirm.XXXXXX)
 git -C /repo worktree add -q --detach "$wt" HEAD || exit 3
 cp "$src/demo_$id.py" "$wt/"
@@ -11,26 +12,26 @@ if ! git -C "$wt" apply "$patch"; then echo "$id: patch does not apply"; git -C 
 ( cd "$wt" && PYTHONPATH="$wt:/tmp/seedkit" /venv/bin/python demo_$id.py > /tmp/confirm_$id.seeded 2>&1 ); rc_seeded=$?
 ( cd "$wt" && rm -rf .hypothesis && PYTHONPATH="$wt" /venv/bin/python -m pytest -q -p no:cacheprovider --timeout=900 --continue-on-collection-errors -k "not test_convert and not test_density_zeros" > /tmp/confirm_$id.tests 2>&1 ); rc_tests=$?
 tests=$(tail -1 /tmp/confirm_$id.tests)
-VT4_REPO="$wt" /verif/check "$id" quick > /tmp/confirm_$id.check 2>&1; rc_check=$?
+VT4_REPO="$wt" /verif/check "$checkid" quick > /tmp/confirm_$id.check 2>&1; rc_check=$?
 nviol=$(grep -c '^VIOLATION' /tmp/confirm_$id.check)
 git -C "$wt" diff > "$out/patch.diff"
 cp "$src/demo_$id.py" "$out/"; cp "$src/NOTE.md" "$out/NOTE.md" 2>/dev/null
 git -C /repo worktree remove --force "$wt"
 head=$(git -C /repo log --format=%h -1)
-python3 - "$id" "$rc_clean" "$rc_seeded" "$rc_tests" "$tests" "$rc_check" "$nviol" "$head" <<'PY'
+python3 - "$id" "$rc_clean" "$rc_seeded" "$rc_tests" "$tests" "$rc_check" "$nviol" "$head" "${OUTNAME:-$id}" "$checkid" <<'PY'
 import json, sys
-id_, rc_clean, rc_seeded, rc_tests, tests, rc_check, nviol, head = sys.argv[1:]
-note = open('/verif/seeded/%s/NOTE.md' % id_).read() if __import__('os').path.exists('/verif/seeded/%s/NOTE.md' % id_) else ''
+id_, rc_clean, rc_seeded, rc_tests, tests, rc_check, nviol, head, outname, checkid = sys.argv[1:]
+note = open('/verif/seeded/%s/NOTE.md' % outname).read() if __import__('os').path.exists('/verif/seeded/%s/NOTE.md' % id_) else ''
 meta = {'property': id_, 'source': 'fresh sub-agent given only the property text and a scratch worktree',
         'applies_to_repo_commit': head,
         'needs_to_manifest': note,
         'confirmed': {'demo_on_clean_tree_exit': int(rc_clean), 'demo_with_change_exit': int(rc_seeded),
                       'baseline_tests_with_change': tests.strip(), 'baseline_tests_exit': int(rc_tests)},
-        'detected_by': {'check': id_, 'tier': 'quick', 'exit': int(rc_check), 'violation_lines': int(nviol)},
+        'detected_by': {'check': checkid, 'tier': 'quick', 'exit': int(rc_check), 'violation_lines': int(nviol)},
         'ran': ['git worktree add --detach <tmp> HEAD; git apply patch.diff',
                 'PYTHONPATH=<tmp>:/tmp/seedkit /venv/bin/python demo_%s.py (before and after the patch)' % id_,
                 'pytest -k "not test_convert and not test_density_zeros" in the patched worktree',
-                'VT4_REPO=<tmp> /verif/check %s quick' % id_]}
-json.dump(meta, open('/verif/seeded/%s/meta.json' % id_, 'w'), indent=1)
+                'VT4_REPO=<tmp> /verif/check %s quick' % checkid]}
+json.dump(meta, open('/verif/seeded/%s/meta.json' % outname, 'w'), indent=1)
 print(id_, 'demo clean/seeded exit', rc_clean, rc_seeded, '| tests', tests.strip()[:40], '| check exit', rc_check, 'violations', nviol)
 PY
